@@ -175,8 +175,8 @@ def sumStats (fm : List Final) : Stats := (fm.map (·.stats)).foldl Stats.add St
 
 /-- the result `RunStatement` builds from the aggregation result -/
 def renderFinal (fm : List Final) : String :=
-  if (allRows fm).length = 0 then renderResult [] ++ "|stats=" ++ statsStr Stats.zero
-  else renderResult (allRows fm) ++ "|stats=" ++ statsStr (sumStats fm)
+  -- (the processing statistics are reported whether or not any flow matched)
+  renderResult (allRows fm) ++ "|stats=" ++ statsStr (sumStats fm)
 
 /-! ### the channel protocol -/
 namespace Proto
